@@ -136,8 +136,27 @@ def run(R):
         c1 = R.call(h, fn, [xi], opts=oi)
         c2 = R.call(h, fn, [xi + ki * P2], opts=oi)
         dom = z3.And(xi > -LIM, xi < LIM, xi + ki * P2 > -LIM, xi + ki * P2 < LIM)
-        R.verify("%s/periodic" % fn, [xi, ki], [c1, c2], dom, c1.out == c2.out, portfolio=("z3", "cvc5"),
-                 note="%s(x + k*2phi) == %s(x) exactly for every x, k in range" % (fn, fn))
+        obp = R.verify("%s/periodic" % fn, [xi, ki], [c1, c2], dom, c1.out == c2.out, portfolio=("z3", "cvc5"),
+                       note="%s(x + k*2phi) == %s(x) exactly for every x, k in range" % (fn, fn))
+
+        def refine(fn=fn, c1=c1, c2=c2, dom=dom):
+            # the abstract query gave models that the real code does not confirm (the products are uninterpreted there): look
+            # for a real counterexample with the real multipliers, one period apart, on pieces of [-2phi, 0) (so that x and
+            # x + 2phi lie on opposite sides of zero) -- and keep the abstract obligation open: pieces that hold do not prove it
+            ps = O.pieces(-P2, -1, 2048)
+            R.rng.shuffle(ps)
+            out = []
+            for (l, hh) in ps[:6 if R.quick() else 48]:
+                x, ins, d = O.piece_var(l, hh, 11)
+                a1, a2 = R.call(h, fn, [x]), R.call(h, fn, [x + val(P2)])
+                out.append(Ob("%s/periodic/k=1/[%d,%d]" % (fn, l, hh), "hunt", ins, [a1, a2], d, a1.out == a2.out, portfolio=("z3",),
+                              timeout=300, note="%s(x + 2phi) == %s(x) with the real multipliers on one piece" % (fn, fn)))
+            again = Ob("%s/periodic#open" % fn, "verify", [xi, ki], [c1, c2], dom, c1.out == c2.out, portfolio=("z3", "cvc5"),
+                       note="the abstract periodicity query is not discharged (its models do not reproduce); pieces with the real "
+                            "multipliers were searched for a concrete counterexample")
+            return out + [again]
+        if obp is not None:
+            obp.fallback = refine
         R.witness("%s/periodic-reach" % fn, [xi, ki], [c1, c2], z3.And(dom, ki > 1000, xi < -5000000), c1.out != 0,
                   portfolio=("z3", "cvc5"))
         vec[fn] = [[v] for v in (0, 1, -1, 102943, 102944, 102945, -102944, 308831, 308832, 411774, -411775, 5000000,
